@@ -8,7 +8,7 @@ from vlib.props import c04, c12
 
 RULE = ("Flow A: MC_Pipe (filter -> vertices -> coding graph -> encode) with EveryWindowValid, OnlyRetained, VertexIsWindow, "
         "LocalToGlobal as invariants over the built-in order-2 (and order-3) configurations and a stratum of arbitrary order-2 vertex "
-        "sets as user-defined predicates x t x retained starts x messages x modes; the real pipeline is run on every exported input, "
+        "sets as user-defined predicates x t x retained starts x messages x modes x {no shuffling, a shuffle table}; the real pipeline is run on every exported input, "
         "the real filter is asked about every window of start k-mer + strand and about the whole strand, and Trace_Pipe judges the "
         "record with the specification's window predicate. The constructor clause is judged on every configuration TLC finds "
         "accepted-but-undecidable. Flow B: seeded realistic filters of orders 3..5, messages to 256 (1024) bits. "
